@@ -8,9 +8,11 @@ import (
 
 	"go.etcd.io/bbolt/zverif/checks"
 	"go.etcd.io/bbolt/zverif/hx"
+	"go.etcd.io/bbolt/zverif/mc"
 )
 
 var table = map[string]func(tier string) int{
+	"C03": checks.C03,
 	"C04": checks.C04,
 	"C06": checks.C06,
 	"C07": checks.C07,
@@ -28,6 +30,9 @@ func main() {
 		switch os.Args[2] {
 		case "hx":
 			hx.ServeWorker()
+		case "mc":
+			mc.Serve()
+			hx.CleanWorkDir()
 		default:
 			if f := checks.WorkerKinds[os.Args[2]]; f != nil {
 				f()
